@@ -220,7 +220,8 @@ def campaign(name, programs, workdir, feat="ref", spec="TraceFatFs", n_shards=No
     fold = "ascii" if feat == "nounicode" else "unicode"
     t0 = time.time()
     # a trace file is deserialised as a whole by TLC: keep the pieces small (cut only where a program begins)
-    if spec in ("TraceFatFs", "TraceB"):
+    stateless = spec in ("TraceMount", "TraceFormat", "TraceDirDecode", "TraceFault")      # (every event is judged on its own)
+    if spec in ("TraceFatFs", "TraceB") or stateless:
         pieces = []
         for k, pf, ef in files:
             if os.path.getsize(ef) <= MAX_TRACE_BYTES:
@@ -229,7 +230,7 @@ def campaign(name, programs, workdir, feat="ref", spec="TraceFatFs", n_shards=No
             part, size, out = 0, 0, None
             with open(ef) as f:
                 for ln in f:
-                    if out is None or (size > MAX_TRACE_BYTES and '"op":"begin"' in ln):
+                    if out is None or (size > MAX_TRACE_BYTES and (stateless or '"op":"begin"' in ln)):
                         if out:
                             out.close()
                         part += 1
